@@ -1052,6 +1052,11 @@ def is_trivial(c):
 
 def oracle(c):
     out = []
+    for line, o in zip(c.lines, c.impl):
+        if o and "!doors-differ" in o:
+            out.append(("sibling-functions-differ", {"line": line[:300], "impl": o[:400]}))
+    if out:
+        return out
     try:
         k = c.meta.get("kind")
         if k == "write":
